@@ -981,13 +981,31 @@ findall_with_existential(Template, Goal, PairedSolutions, Witnesses0, Witnesses)
        (  Goal1 = _ ^ _  ) ->
        rightmost_power(Goal1, Goal2, ExistentialVars0),
        term_variables(ExistentialVars0, ExistentialVars),
-       lists:append(Witnesses0, Witnesses, ExistentialVars),
+       exclude_variables(Witnesses0, ExistentialVars, Witnesses),
        expand_goal(M:Goal2, M, Goal3),
        findall(Witnesses-Template, Goal3, PairedSolutions)
     ;  Witnesses = Witnesses0,
        findall(Witnesses-Template, Goal, PairedSolutions)
     ).
 
+
+:- non_counted_backtracking exclude_variables/3.
+
+% exclude_variables(Vs0, Xs, Vs): Vs are the variables of Vs0 that do not occur in Xs.
+exclude_variables([], _, []).
+exclude_variables([V|Vs0], Xs, Vs) :-
+    (  variable_occurs(Xs, V) ->
+       Vs = Vs1
+    ;  Vs = [V|Vs1]
+    ),
+    exclude_variables(Vs0, Xs, Vs1).
+
+:- non_counted_backtracking variable_occurs/2.
+
+variable_occurs([X|Xs], V) :-
+    (  X == V -> true
+    ;  variable_occurs(Xs, V)
+    ).
 
 :- non_counted_backtracking split_by_variant/4.
 
